@@ -298,8 +298,32 @@ def nodeCommitFirst : Bool :=
   | some a, some b => a < b
   | _, _ => true
 
+/-- what `startStateSync` does with the errors of its two writes, from the regenerated facts -/
+def nodeHandCode : HandCode :=
+  { commitFirst := nodeCommitFirst, seenErrReturns := Facts.c14_handover_seen_err_returns
+    bootErrReturns := Facts.c14_handover_boot_err_returns }
+
 def lop (st : St) (toks : List String) : St × String :=
   match toks with
+  | "l.hand" :: rest =>
+    match st.lch, nat? rest "h", nat? rest "trust", nat? rest "boot", kv rest "seen", kv rest "switch" with
+    | some c, some h, some trust, some boot, some seen, some sw =>
+      if boot > 9 ∨ (seen ≠ "ok" ∧ seen ≠ "fail") ∨ (sw ≠ "ok" ∧ sw ≠ "fail") then (st, "bad-op")
+      else
+        let inRange := (c.blocks.any fun bp => bp.1.height = trust)
+        match (if inRange then lcSync c none h else .error "err@init") with
+        | .error e => (st, e)
+        | .ok (_, s, cm) =>
+          let (stores, switched) := handOver nodeHandCode
+            { seenFails := seen = "fail", bootFailAt := boot, switchFails := sw = "fail" } s cm
+          let sts := match stores.state with
+            | none => "state=empty"
+            | some x => s!"state=lbh:{x.lastBlockHeight}"
+          let seenS := match stores.seen h with
+            | some x => s!"seen={x.height}:{hexOrDash x.blockHash}"
+            | none => "seen=none"
+          (st, s!"{sts} {seenS} switched={if switched then 1 else 0}")
+    | _, _, _, _, _, _ => (st, "bad-op")
   | "l.chain" :: rest =>
     match nat? rest "seed", nat? rest "n", nat? rest "nv", nat? rest "ih", nat? rest "pchg", nat? rest "uchg",
           nat? rest "vver", (kv rest "vchg").bind (fun s => (splitComma s).mapM String.toNat?),
@@ -431,6 +455,7 @@ def step (st : St) (toks : List String) : St × String :=
     | some "0" => ({ st with via := false }, "ok")
     | _ => (st, "bad-op")
   | "l.chain" :: _ => lop st toks
+  | "l.hand" :: _ => lop st toks
   | "l.sync" :: _ => lop st toks
   | "l.boot" :: _ => lop st toks
   | "q.new" :: rest =>
